@@ -74,7 +74,7 @@ def check_array_size_task(engine):
         ex.assume(z3.Or(L.is_List(arr), L.is_Dict(arr)))
         n = z3.If(L.is_List(arr), ex.heap.llen(Val.lref(arr)), ex.heap.dlen(Val.dref(arr)))
         env = Env()
-        env.vars['arr'] = arr
+        bind_positional(env, fi, [arr])
         ctx = {'env': env, 'entry': ex.heap.copy(), 'n': n}
         ex.ctx = ctx
         return ctx
@@ -179,12 +179,14 @@ def keycast_task(engine, name, contract, with_container=False):
         setup_cur_state(ex)
         env = Env()
         ctx = {'env': env}
+        vals = []
         if with_container:
             c = plain_arg(ex, 'container')
-            env.vars['container'] = c
+            vals.append(c)
             ctx['container'] = c
         k = plain_arg(ex, 'key')
-        env.vars['key'] = k
+        vals.append(k)
+        bind_positional(env, fi, vals)
         ctx['key'] = k
         ctx['entry'] = ex.heap.copy()
         ex.ctx = ctx
@@ -278,8 +280,7 @@ def safe_cast_task(engine):
         t = z3.Const('arg_t', Val)
         ex.assume(L.is_Fun(t))
         env = Env()
-        env.vars['v'] = v
-        env.vars['t'] = t
+        bind_positional(env, fi, [v, t])
         ctx = {'env': env, 'v': v, 't': t, 'entry': ex.heap.copy()}
         ex.ctx = ctx
         return ctx
